@@ -11,7 +11,7 @@ fn c02_range_new() {
     let end = if has_end { Some(e) } else { None };
     let accept = !has_end || start < e;
     kani::cover!(has_end && start == e, "start == end rejected");
-    kani::cover!(has_end && start + 1 == e, "one-block range");
+    kani::cover!(has_end && e > 0 && start == e - 1, "one-block range");
     kani::cover!(!has_end && start == 0, "default range");
     kani::cover!(!has_end && start == u64::MAX, "open range from a huge start");
     match BlockHeightRange::new(start, end) {
